@@ -288,10 +288,27 @@ def in_loop_blocks(body):
     return out
 
 
+def run_buffer_geometry(rep, facts):
+    """R2.7: bytes that were extracted into the internal stream buffer, and protocol bytes not parsed yet, survive compaction and partial
+    consumption (E8 geometry of compress / consume_stream / discard_stream / stream_buffer, rules of C03 re-evaluated)."""
+    from . import c03
+    rep.rule("R2.7", "buffer geometry of the stream parser (R3.10): compress / consume_stream / discard_stream / stream_buffer / input_buffer keep every live region "
+                     "where the cursors say; a partially consumed stream buffer followed by compress() loses neither stream bytes nor pending protocol bytes")
+    sr = check.Report("tmp", "quick")
+    c03.run_geometry(sr, facts)
+    n = 0
+    for i in sr.instances:
+        if i["rule"] == "R3.10" and not i["instance"].startswith("move_input") and "floor" not in i["instance"]:
+            n += 1
+            (rep.ok if i["status"] == "ok" else rep.violation)("R2.7", i["instance"], i["detail"], i["loc"])
+    rep.floor("R2.7", "geometry postconditions", n, 4)
+
+
 def main(rep, tier):
     f = F.load(("async", "http"))
     rep.configs.append({"features": "async,http", "profile": "debug", "bodies": len(f.bodies)})
     check.guard(rep, "R2", run, f)
+    check.guard(rep, "R2.7", run_buffer_geometry, f)
     rep.floor("R2", "rule instances", len([i for i in rep.instances if i["status"] == "ok"]), 10)
     return rep.finish(
         "Necessary structural conditions of exact delivery: where the delivering state is entered and left, that bytes move only in that "
